@@ -18,7 +18,7 @@ PROPS = {
         "assumptions": ["u64 arithmetic is modelled on Nat; bit tricks kept as written and related to arithmetic by lemmas"],
     },
     "C12": {
-        "gens": ["C12", "STORE"],
+        "gens": ["C12", "STORE", "FLIPZ"],
         "rule": "every byte-size class (g*G-1, g*G, g*G+1, half group, half chunk) for 1..40 (quick) / 300 (thorough) groups x block sizes 0..10: "
                 "both node iterators and pre/post offsets of every node id in 0..2*chunks+4 (windows on left spine, root, right edge for larger trees); "
                 "sizes 2^k + {-1025..1025}, k = 11..62. non-trivial = trees with more than one block",
